@@ -12,4 +12,15 @@ PROPS = {
   'explanation': 'Theorems C17_complete / C17_fails_loudly hold for every fetch function, i.e. every tree and every set of failing directories; '
                  'the model iterate is compared with IterateEntries on generated trees, and the oracle checks the implementation against the generator ground truth.',
  },
+ 'C03': {
+  'rule': 'generated directories (0..1000 entries; multi-byte deltas/offsets up to 2^62, lengths and run lengths up to 2^32-1, '
+          'contiguous, shared and scattered offsets) serialized by the implementation (none and gzip) and by the independent spec encoder '
+          '(with and without the shorthand), decoded by both; plus unsorted lists and malformed inputs (truncated, corrupted, overlong varints, '
+          'counts the data does not back). Non-trivial: more than one entry and at least one multi-byte varint, or unsorted/malformed; distinct by case line',
+  'trusted_base': [GZIP + '; the gzip round trip is the Section hypothesis decomp (comp b) = Some b of C03_roundtrip',
+                   'wire_repr (coq/Model/Directory.v) is the transcription of the v3 specification of the directory encoding'],
+  'assumptions': ['gzip.NewWriter/NewReader round-trip (exercised by the harness on every gz case, not verified)'],
+  'explanation': 'C03_roundtrip_raw/C03_roundtrip: all entry lists with fields in their Go ranges, any order; C03_encoder_is_spec/C03_decoder_reads_spec: '
+                 'interoperability with every spec-conforming encoder/decoder; model compared byte-for-byte / entry-for-entry with SerializeEntries/DeserializeEntries.',
+ },
 }
